@@ -169,13 +169,28 @@ def run(ctx):
             if any(x.term.kind == 'switch' and x.term.j.get('adt') == 'tokio::sync::TryAcquireError' for x in cb.blocks):
                 continue
             arg_tys = [l['ty'] for l in cb.locals[1:cb.arg_count + 1]]
-            if any('AcquireError' in t_ for t_ in arg_tys):
+            if any((adt_of(t_.lstrip('&')) or '').endswith('::AcquireError') for t_ in arg_tys):
                 made = sorted({s.rv.j['variant'] for y in cb.blocks for s in y.stmts if s.kind == 'assign' and s.rv.kind == 'agg' and s.rv.j.get('adt') == UERR})
                 ctx.ob('R12.3', 'a failed blocking acquire maps to Closed', made == ['Closed'], ctx.where(cb), 'constructs %s' % made, construct='map-acquire:' + cb.name)
-    # ---- R12.3 (cont.) Timeout is only ever decided by the semaphore (which also knows that the pool is closed) -------
+    timeout_only_from_semaphore(ctx, r, 'R12.3', (r.TRY_GET, r.TIMEOUT_GET, r.TRY_ADD, r.ADD), floor=3)
+    # ---- R12.5 which primitive each (timeout, runtime) combination reaches: a zero timeout never touches the timer (which
+    # panics outside a runtime context), a non-zero one without runtime is a reported error (table shared with C10)
+    from .rules_C10 import unmanaged_timeout_table
+    unmanaged_timeout_table(ctx, 'R12.5')
+
+    ctx.not_decided += ['that tokio wakes all waiters on close() (trusted)', 'user Drop of T runs under the queue lock inside clear() (noted, outside the property)']
+    ctx.assumptions += ['a std Vec never holds more than isize::MAX elements', 'tokio Semaphore::close semantics']
+
+
+def timeout_only_from_semaphore(ctx, r, RULE, bodies_, floor=1):
+    """PoolError::Timeout is only ever built on the NoPermits arm of a try_acquire or as the deadline of a timed acquire (shared by C12
+    and C05: a refusal decided by anything else - a counter, a flag - is wrong whenever that thing and the semaphore disagree)"""
+    prog = ctx.prog
+    UERR = 'deadpool::unmanaged::errors::PoolError'
+    # ---- (R12.3 cont. / R05.5 cont.) Timeout is only ever decided by the semaphore (which also knows that the pool is closed) -------
     # a Timeout built anywhere else (a counter-based fast path, say) answers Timeout on a closed pool, where Closed is owed
     n_to = 0
-    for b in (r.TRY_GET, r.TIMEOUT_GET, r.TRY_ADD, r.ADD):
+    for b in bodies_:
         cl = [c_ for bb, c_, k in prog.callgraph().get(b.path, []) if k in ('closure', 'fnref') and c_ in prog.bodies and c_.startswith(('deadpool::unmanaged', '<deadpool::unmanaged'))]
         for body in [b] + [prog.bodies[x] for x in cl if x in prog.bodies]:
             ban = prog.an(body)
@@ -200,17 +215,21 @@ def run(ctx):
                                         any(q[0] == 'agg' and q[2] == y.idx for q in sources(ban, z.term.args[1])) and \
                                         any(q[0] == 'call' and q[1] == 'deadpool_runtime::Runtime::timeout' for q in sources(ban, z.term.args[0], deep=True)):
                                     ok = True
-                        ctx.ob('R12.3', 'Timeout is decided by the semaphore only (NoPermits, or the deadline of a blocking acquire)', ok, ctx.where(body, s.line),
+                            # the same in the normal form (ok_or written out): the value is used on the None arm of the timer's answer
+                            for z in body.blocks:
+                                tz = z.term
+                                if tz.kind == 'switch' and not z.cleanup and tz.j.get('adt') == 'std::option::Option' and 'on' in tz.j and \
+                                        any(q[0] == 'call' and q[1] == 'deadpool_runtime::Runtime::timeout' for q in sources(ban, Operand({'c': tz.j['on']}), deep=True)):
+                                    arms_ = dict(tz.switch_arms())
+                                    none_only = ban.reach([arms_['None']], ('normal',), avoid=[arms_.get('Some')]) if 'None' in arms_ else set()
+                                    users = [w_.idx for w_ in body.blocks if not w_.cleanup for st_ in w_.stmts if st_.kind == 'assign' and st_.rv.kind == 'agg' and st_.rv.j.get('adt') == 'std::result::Result'
+                                             and st_.rv.j.get('variant') == 'Err' and any(o_.kind != 'const' and any(q[0] == 'agg' and q[2] == y.idx and q[1].endswith('::Timeout') for q in sources(ban, o_)) for o_ in st_.rv.ops)]
+                                    if users and all(u_ in none_only for u_ in users):
+                                        ok = True
+                        ctx.ob(RULE, 'Timeout is decided by the semaphore only (NoPermits, or the deadline of a blocking acquire)', ok, ctx.where(body, s.line),
                                'PoolError::Timeout is built without the semaphore having been consulted: on a closed pool this call answers Timeout where Closed is owed' if not ok else '',
                                construct='timeout-without-semaphore:' + b.name)
-    ctx.floor('R12.3', 'constructions of PoolError::Timeout examined', n_to, 3)
-    # ---- R12.5 which primitive each (timeout, runtime) combination reaches: a zero timeout never touches the timer (which
-    # panics outside a runtime context), a non-zero one without runtime is a reported error (table shared with C10)
-    from .rules_C10 import unmanaged_timeout_table
-    unmanaged_timeout_table(ctx, 'R12.5')
-
-    ctx.not_decided += ['that tokio wakes all waiters on close() (trusted)', 'user Drop of T runs under the queue lock inside clear() (noted, outside the property)']
-    ctx.assumptions += ['a std Vec never holds more than isize::MAX elements', 'tokio Semaphore::close semantics']
+    ctx.floor(RULE, 'constructions of PoolError::Timeout examined', n_to, floor)
 
 
 def publish_guard(ctx, r, RULE):
